@@ -68,7 +68,7 @@ GAMMAS = ["1/2", "3/4", "7/8"]
 # exact rationals grow by a few bits per step along update chains and Qred is quadratic in their length:
 # longer experiences are decided by the Python oracle only (counted separately, not as evaluations)
 MAX_STEPS = 300
-MAX_STEPS_GEN = 80
+MAX_STEPS_GEN = 40
 MAX_STEPS_EDGE = 40     # boundary family: 20..70 bits per step
 TOL = F(1, 10**12)
 TOL_GEN = F(1, 10**9)
@@ -91,7 +91,8 @@ def gen_case(rng, tier):
         m = gen_mdp.gen_mdp(rng, nmax=1, amax=3, gamma=gamma, proper=True, min_states=1)
     else:
         m = gen_mdp.gen_mdp(rng, nmax=5 if tier == "quick" else 6, amax=3, gamma=gamma, proper=True, min_states=2)
-    learner = rng.choice(["ql", "sarsa", "esarsa", "dq"])
+    # expected SARSA gets two families of its own below: keep the other learners' share of the plain family up
+    learner = rng.choice(["ql", "ql", "sarsa", "sarsa", "sarsa", "dq", "dq", "esarsa"])
     r = rng.random()
     n, nA = m["n"], m["nA"]
     if r < .35:
@@ -134,7 +135,20 @@ def gen_case(rng, tier):
         temp, eps = "0", rng.choice(["0", "1/20", "1/20"])
         alpha = rng.choice(["1/8", "1/2", "1"])
         episodes = rng.choice([3, 5, 8])
-    if not ties and rng.random() < .2:
+    soft = (not ties) and rng.random() < .1
+    if soft:
+        # softmax-expectation family: expected SARSA whose target really is a softmax-weighted average (moderate
+        # temperature, eps 0 or small, step size > 0, unequal rows, several multi-step episodes): distinguishes the
+        # expectation from max / mean / a sampled entry, including on the eps == 0 early-return branch
+        family = "softexp"
+        m = gen_mdp.gen_mdp(rng, nmax=5 if tier == "quick" else 6, amax=3, gamma=rng.choice(GAMMAS), proper=True,
+                            min_states=3, uniform_actions=rng.random() < .7)
+        n, nA = m["n"], m["nA"]
+        learner = "esarsa"
+        iq = {"kind": "table", "table": [[str(F(rng.randint(-16, 16), 4)) for _ in range(nA)] for _ in range(n)]}
+        temp, eps = rng.choice(["1/2", "2"]), rng.choice(["0", "0", "1/20"])
+        alpha = rng.choice(["1/8", "1/2", "1"])
+    if not ties and not soft and rng.random() < .3:
         # reward-scale family: Q-values around 2^20 that differ by multiples of 2^-12 (relative gap < 1e-9):
         # the greedy policy must separate them exactly.  Step size 1 => Q = reward on terminal transitions.
         family = "scale"
@@ -165,7 +179,9 @@ def gen_case(rng, tier):
         skew_row(rng, m, tiny)
         episodes = rng.choice([1, 2, 3])
     if learner == "esarsa" and temp != "0":
-        episodes = rng.choice([1, 1, 2, 3])     # recorded 44-bit probabilities enter the fold: keep it short
+        episodes = rng.choice([1, 1, 2, 3])     # 44-bit probabilities enter the fold: keep it short
+    if family == "softexp":
+        episodes = rng.choice([2, 3, 4])
     r = rng.random()
     if r < .03:
         episodes = 0                             # range(0): empty table, policy uniform everywhere
@@ -591,7 +607,7 @@ def search_failing(case, res, impl_rows, impl_pol):
 # ---------------------------------------------------------------------------------------------
 def run(ctx):
     tier = ctx.tier
-    ncases = 170 if tier == "quick" else 3000
+    ncases = 200 if tier == "quick" else 3000
     if ctx.replay_case:
         cases = [ctx.replay_case["detail"]["case"]]
     else:
@@ -745,6 +761,15 @@ def run(ctx):
         hit("policy_state_absent_from_table", any(s not in impl_rows for s in range(m["n"])))
         hit("initial_q:" + case["initial_q"]["kind"])
         hit("family_ties:" + kind, case.get("family") == "ties" and allsteps)
+        hit("immediate_repeat_of_same_state_action(self-loop,alpha>0):" + kind, F(case["alpha"]) > 0 and any(
+            x["ns"] == x["s"] and y["s"] == x["s"] and y["a"] == x["a"]
+            for e in res["episodes"] for x, y in zip(e["steps"], e["steps"][1:])))
+        hit("esarsa_softmax_target_effective(alpha>0,next_state_non_absorbing_with>=2_actions)",
+            kind == "esarsa" and tp_ != 0 and F(case["alpha"]) > 0 and nsteps <= MAX_STEPS_GEN and
+            any(not m["absorbing"][st["ns"]] and len(m["actions"][st["ns"]]) >= 2 for st in allsteps))
+        hit("esarsa_softmax_target_effective_eps0", kind == "esarsa" and tp_ != 0 and ep_ == 0 and F(case["alpha"]) > 0
+            and nsteps <= MAX_STEPS_GEN and
+            any(not m["absorbing"][st["ns"]] and len(m["actions"][st["ns"]]) >= 2 for st in allsteps))
         if nsteps <= MAX_STEPS:
             hit("esarsa_temp0_tied_nonzero_max_at_next_state", tied_nonzero_targets(case, res) > 0)
         hit("scale_family_with_softmax_temperature(q/temp>709)", case.get("family") == "scale" and tp_ != 0 and allsteps)
@@ -863,7 +888,8 @@ def run(ctx):
                 "30%% object-reuse sequences (ONE learner object trained on A, B, A with the same labels and independently drawn "
 "absorbing sets / action sets / rewards; each stage is one evaluation against its own MDP; the MDP object of A is reused, "
                 "20%% with its cached matrix views touched first; every run is repeated by a twin learner with msdm's default listener); "
-"18%% tie family (>= 2 actions everywhere, non-zero constant / per-state-constant initial_q, temperature 0, eps in {0,1/20}: "
+"10%% softmax-expectation family (expected SARSA, temperature 1/2 or 2, eps 0 or 1/20, step size > 0, distinct initial Q, 3-6 episodes); "
+                "18%% tie family (>= 2 actions everywhere, non-zero constant / per-state-constant initial_q, temperature 0, eps in {0,1/20}: "
                 "tied NON-ZERO maximal Q-values at non-absorbing next states; expected SARSA weighted 3x); "
                 "10%% boundary family (gamma = 1-2^-20, step size / epsilon in {0, 2^-20, 2^-30, 1-2^-20, 1}, a transition row (1-k*2^-20, 2^-20, ..)); "
                 "state and action labels int / str / tuple / mixed incl. falsy 0, '', (), False; per-state action order sorted/reversed/shuffled; "
